@@ -30,9 +30,8 @@ ALLF = list(images.FORMATS)
 
 def quiet():
     """the inspectors log every refused check at WARNING/ERROR: keep the check's output clean"""
-    lg = logging.getLogger('oslo_utils.imageutils.format_inspector')
-    lg.setLevel(logging.CRITICAL + 10)
-    lg.propagate = False
+    import ambient
+    ambient.quiet_logger('oslo_utils.imageutils.format_inspector')
 
 
 quiet()
